@@ -683,3 +683,217 @@ def tr_dereify(node, model='amr', mdl=None, start=None):
     else:
         t['exc'] = 'Hang' if isinstance(r, Hang) else excname(r)
     return t
+
+
+# ============================================================ command line (C16, C20)
+import contextlib  # noqa: E402
+import subprocess  # noqa: E402
+import tempfile  # noqa: E402
+
+_WORK = os.path.join(os.path.dirname(os.path.dirname(os.path.abspath(__file__))), 'work')
+
+
+def _clidir():
+    d = os.path.join(_WORK, f'cli.{os.getpid()}')
+    os.makedirs(d, exist_ok=True)
+    return d
+
+
+def _model_file():
+    p = os.path.join(_clidir(), 'model.json')
+    if not os.path.exists(p):
+        raw = RAW_MODELS['miniamr']
+        roles = {lit: {} for lit in raw['lits']}
+        for prefix, mult in raw['pats']:
+            roles[prefix + ('[0-9]+' if mult == 'many' else '[0-9]')] = {}
+        with open(p, 'w') as f:
+            _json.dump({'roles': roles, 'normalizations': dict(raw['norm']), 'reifications': raw['reifs']}, f)
+    return p
+
+
+def run_tool(args, inputs, stdin=False, subproc=False):
+    """Run the penman command on *inputs* (list of texts; one text via stdin if *stdin*). Returns dict(out, exit, exc)."""
+    from penman import __main__ as pm
+    d = _clidir()
+    args = [(_model_file() if a == '@MODELFILE@' else a) for a in args]
+    files = []
+    if not stdin:
+        for i, text in enumerate(inputs):
+            p = os.path.join(d, f'in{i}.txt')
+            with open(p, 'w', encoding='utf-8', newline='') as f:
+                f.write(text)
+            files.append(p)
+    if subproc:
+        env = dict(os.environ, PYTHONPATH=os.environ.get('PENMAN_SRC', '/repo'), PYTHONIOENCODING='utf-8')
+        p = subprocess.run([sys.executable, '-m', 'penman'] + args + files, input=inputs[0] if stdin else None,
+                           capture_output=True, text=True, encoding='utf-8', env=env, timeout=60, cwd=d)
+        exc = ''
+        if p.returncode not in (0, 1) or 'Traceback' in p.stderr:
+            last = [l for l in p.stderr.strip().splitlines() if l.strip()]
+            exc = last[-1].split(':')[0].split('.')[-1] if last else 'exit%d' % p.returncode
+        return {'out': p.stdout, 'exit': p.returncode, 'exc': exc}
+    old = sys.argv, sys.stdin, sys.stdout, sys.stderr
+    out, err = io.StringIO(), io.StringIO()
+    res = {'out': '', 'exit': 0, 'exc': ''}
+    try:
+        sys.argv = ['penman'] + args + files
+        sys.stdin = io.StringIO(inputs[0]) if stdin else io.StringIO('')
+        sys.stdout, sys.stderr = out, err
+        signal.setitimer(signal.ITIMER_REAL, 20)
+        try:
+            pm.main()
+        except SystemExit as e:
+            res['exit'] = e.code if isinstance(e.code, int) else (0 if e.code is None else 1)
+        except Hang:
+            res['exc'] = 'Hang'
+        except Exception as e:  # noqa
+            res['exc'] = excname(e)
+    finally:
+        signal.setitimer(signal.ITIMER_REAL, 0)
+        sys.argv, sys.stdin, sys.stdout, sys.stderr = old
+    res['out'] = out.getvalue()
+    return res
+
+
+def _cli_model(name):
+    return get_model('miniamr' if name == 'file' else name)
+
+
+def run_pipeline(plan, inputs):
+    """The documented library pipeline, executed from the stage list the specification exported."""
+    out = []
+    exitcode = 0
+    res = {'out': '', 'exit': 0, 'exc': ''}
+    try:
+        signal.setitimer(signal.ITIMER_REAL, 20)
+        for text in inputs:
+            first = True
+            for t in penman.iterparse(text.splitlines(True) if False else io.StringIO(text)):
+                if not first and plan['blank_between_graphs']:
+                    out.append('\n')
+                first = False
+                g = None
+                s = None
+                for st in plan['stages']:
+                    m = _cli_model(st['model'])
+                    fn = st['fn']
+                    if fn == 'canonicalize_roles':
+                        t = transform.canonicalize_roles(t, m)
+                    elif fn == 'interpret':
+                        g = layout.interpret(t, m)
+                    elif fn == 'reify_edges':
+                        g = transform.reify_edges(g, m)
+                    elif fn == 'dereify_edges':
+                        g = transform.dereify_edges(g, m)
+                    elif fn == 'reify_attributes':
+                        g = transform.reify_attributes(g)
+                    elif fn == 'indicate_branches':
+                        g = transform.indicate_branches(g, m)
+                    elif fn == 'check':
+                        errs = m.errors(g)
+                        if errs:
+                            exitcode = 1
+                            # every offending context is recorded as error-N metadata (one entry per context)
+                            for n, (ctx, msgs) in enumerate(errs.items(), 1):
+                                prefix = '({}) '.format(' '.join(map(str, ctx))) if ctx else ''
+                                g.metadata[f'error-{n}'] = prefix + msgs[-1]
+                    elif fn in ('configure', 'reconfigure'):
+                        if fn == 'configure':
+                            t = layout.configure(g, model=m)
+                        else:
+                            fns = [getattr(m, k) for k in st['keys']]
+                            t = layout.reconfigure(g, model=m, key=lambda role, fns=fns: [f(role) for f in fns])
+                    elif fn == 'rearrange':
+                        fns = [getattr(m, k) for k in st['keys']]
+                        layout.rearrange(t, key=lambda role, fns=fns: [f(role) for f in fns], attributes_first=st['af'])
+                    elif fn == 'reset_variables':
+                        t.reset_variables(st['arg'])
+                    elif fn == 'format':
+                        ind = None if st['arg'] == 'none' else int(st['arg'])
+                        s = penman.format(t, indent=ind, compact=st['flag'])
+                    elif fn == 'format_triples':
+                        s = penman.format_triples(g.triples, indent=st['flag'])
+                out.append(s + '\n')
+    except Hang:
+        res['exc'] = 'Hang'
+    except Exception as e:  # noqa
+        res['exc'] = excname(e)
+    finally:
+        signal.setitimer(signal.ITIMER_REAL, 0)
+    res['out'] = ''.join(out)
+    res['exit'] = exitcode
+    return res
+
+
+def _graphs_of(text, m):
+    ok, gs = guarded(lambda: [{'top': ab.atom(g.top), 'tr': [ab.triple(x) for x in g.triples]}
+                              for g in penman.PENMANCodec(model=m).iterdecode(text)])
+    return gs if ok else [{'top': 'EXC:' + excname(gs), 'tr': []}]
+
+
+_FMT_ARGS = ('--compact',)
+
+
+def _strip_format(args):
+    return [a for a in args if a not in _FMT_ARGS and not a.startswith('--indent')]
+
+
+def tr_cli(plan, inputs, model, stdin=False, subproc=False, wellformed=True):
+    m = _cli_model(model)
+    t = {'kind': 'cli', 'plan': plan, 'model': model, 'stdin': bool(stdin), 'subproc': bool(subproc), 'input_wellformed': bool(wellformed),
+         'ninputs': len(inputs), 'max_errors': 0}
+    if plan['random']:
+        _random.seed(12345)
+    t['tool'] = run_tool(plan['args'], inputs, stdin, subproc)
+    if plan['random']:
+        _random.seed(12345)
+    t['lib'] = run_pipeline(plan, inputs)
+    t['in_graphs'] = [g for text in inputs for g in _graphs_of(text, m)]
+    if plan['triples'] or t['tool']['exc']:
+        t['out_graphs'] = t['base_graphs'] = []
+        if plan['triples'] and not t['tool']['exc']:
+            t['out_graphs'] = [{'top': ab.NULL, 'tr': []} for _ in t['tool']['out'].split('\n\n')] if t['tool']['out'].strip() else []
+    else:
+        t['out_graphs'] = _graphs_of(t['tool']['out'], m)
+        base = run_tool(_strip_format(plan['args']), inputs, stdin, False)
+        t['base_graphs'] = _graphs_of(base['out'], m)
+    import re as _re
+    nums = [int(x) for x in _re.findall(r'(?m)^# ::error-(\d+) ', t['tool']['out'])]
+    t['max_errors'] = max(nums) if nums else 0
+    if plan['idempotent'] and not plan['triples'] and not t['tool']['exc']:
+        t['tool2'] = run_tool(plan['args'], [t['tool']['out']], True, False)
+    else:
+        t['tool2'] = {'out': t['tool']['out'], 'exit': 0, 'exc': ''}
+    return t
+
+
+def tr_clicheck(inputs, model='amr', stdin=False, subproc=False):
+    """inputs: list of texts.  --check over all of them; what is wrong with each graph comes from Model.errors."""
+    m = _cli_model(model)
+    args = {'default': [], 'amr': ['--amr'], 'noop': ['--noop'], 'file': ['--model', '@MODELFILE@']}[model] + ['--check', '--indent=no']
+    t = {'kind': 'check', 'model': model, 'args': args, 'inputs': [], 'outs': []}
+    for text in inputs:
+        per = []
+        for g in penman.PENMANCodec(model=m).iterdecode(text):
+            errs = m.errors(g)
+            ctxs = [[('({}) '.format(' '.join(map(str, k))) if k else '') + msg for msg in v] for k, v in errs.items()]
+            per.append({'bad': bool(errs), 'contexts': ctxs})
+        t['inputs'].append(per)
+    t['tool'] = run_tool(args, inputs, stdin, subproc)
+    # split the tool's output back into per-input, per-graph error metadata
+    outs = []
+    if not t['tool']['exc']:
+        ok, gs = guarded(lambda: list(penman.PENMANCodec(model=m).iterdecode(t['tool']['out'])))
+        gs = gs if ok else []
+        k = 0
+        for per in t['inputs']:
+            cur = []
+            for _ in per:
+                if k < len(gs):
+                    cur.append([v for kk, v in gs[k].metadata.items() if kk.startswith('error-')])
+                k += 1
+            outs.append(cur)
+        if k != len(gs):
+            outs.append([['surplus output graphs']])
+    t['outs'] = outs
+    return t
